@@ -25,9 +25,43 @@ func createMailboxesTablePerUser(db *sql.DB) error {
 		FOREIGN KEY (parent_id) REFERENCES mailboxes(id),
 		UNIQUE(user_id, name)
 	);
+	CREATE TABLE IF NOT EXISTS uid_validity_seq (
+		id INTEGER PRIMARY KEY CHECK (id = 1),
+		last_value INTEGER NOT NULL
+	);
 	`
 	_, err := db.Exec(schema)
 	return err
+}
+
+// rowQuerier is the single-row query method that *sql.DB and *sql.Tx (and every
+// mailboxExecer) have in common.
+type rowQuerier interface {
+	QueryRow(query string, args ...interface{}) *sql.Row
+}
+
+// nextUIDValidityPerUser hands out the UIDVALIDITY of a new mailbox: the clock
+// (Unix seconds), but strictly greater than every value this store has handed
+// out before. uid_validity_seq holds that high-water mark in one row, so it
+// survives the deletion of the mailbox that carried it; a store that has no row
+// yet starts from the largest uid_validity of its mailboxes. The value is taken
+// and the mark advanced in ONE statement, like uid_next; inside a transaction
+// (RENAME creating parent mailboxes) both are undone together with it.
+//
+// RFC 3501 section 2.3.1.1: a mailbox that is deleted and re-created under the
+// same name must get a different UIDVALIDITY unless its UIDs continue; with the
+// bare clock "DELETE x; CREATE x" within one second re-used the value and UID 1
+// then named a different message.
+func nextUIDValidityPerUser(q rowQuerier) (int64, error) {
+	var uidValidity int64
+	err := q.QueryRow(`
+		INSERT INTO uid_validity_seq (id, last_value)
+		VALUES (1, MAX(?, COALESCE((SELECT MAX(uid_validity) FROM mailboxes), 0) + 1))
+		ON CONFLICT(id) DO UPDATE
+		SET last_value = MAX(excluded.last_value, uid_validity_seq.last_value + 1)
+		RETURNING last_value
+	`, time.Now().Unix()).Scan(&uidValidity)
+	return uidValidity, err
 }
 
 func createAliasesTablePerUser(db *sql.DB) error {
@@ -114,8 +148,11 @@ func CreateMailboxPerUser(db mailboxExecer, userID int64, name string, specialUs
 		return 0, fmt.Errorf("mailbox name cannot be empty")
 	}
 
-	// Generate UID validity (Unix timestamp)
-	uidValidity := time.Now().Unix()
+	// Generate UID validity (Unix timestamp, never a value used before)
+	uidValidity, err := nextUIDValidityPerUser(db)
+	if err != nil {
+		return 0, err
+	}
 
 	// Insert mailbox record
 	result, err := db.Exec(`
